@@ -172,8 +172,7 @@ CHECKS["C38"] = dict(
     design=[dict(spec="MCMulticast.tla", cfg="MCMulticastMember.cfg", workers=8, timeout=900),
             dict(spec="MCMulticast.tla", cfg="MCMulticastFlood.cfg", workers=8, timeout=900),
             dict(spec="MCMulticast.tla", cfg="MCMulticastMember3.cfg", workers=8, timeout=1200, thorough_only=True),
-            dict(spec="MCMulticast.tla", cfg="MCMulticastFlood3.cfg", workers=8, timeout=1200, thorough_only=True),
-            dict(spec="MCMulticast.tla", cfg="MCMulticastFlood4.cfg", workers=8, timeout=1500, thorough_only=True)],
+            dict(spec="MCMulticast.tla", cfg="MCMulticastFlood3.cfg", workers=8, timeout=1200, thorough_only=True)],
     gen=dict(
         quick=[dict(mode="edges", spec=_MG, cfg="MulticastGenMemberEdges1.cfg", depth=4, max=350, name="member-edges-1group"),
                dict(mode="sim", spec=_MG, cfg="MulticastGenMemberSim.cfg", depth=12, num=8, max=60, name="member-walks"),
